@@ -110,6 +110,36 @@ pub fn check_bytes(bytes: &[u8], st: &mut Stats, decoded: &dyn Fn() -> String) -
             format!("input header {:x?}, output header {:x?}", header, &out[..5]),
         )));
     }
+    // the other ways of assembling the loaded module give the same words: assemble_into, and
+    // instruction by instruction over the module's own traversal (read-only and mutable)
+    {
+        let mut into: Vec<u32> = vec![0xdead_beef];
+        no_panic("Module::assemble_into", || module.assemble_into(&mut into)).map_err(wrap)?;
+        if into[0] != 0xdead_beef || into[1..] != out[..] {
+            return Err(wrap(Fail::new("assemble-entry-points", "assemble_into", "assemble_into(appending to a non-empty buffer) differs from assemble()".to_string())));
+        }
+        let mut per: Vec<u32> = out[..5].to_vec();
+        no_panic("Instruction::assemble over all_inst_iter", || {
+            for i in module.all_inst_iter() {
+                per.extend(i.assemble());
+            }
+        })
+        .map_err(wrap)?;
+        if per != out {
+            return Err(wrap(Fail::new("assemble-entry-points", "per-instruction-over-all_inst_iter", "assembling instruction by instruction over all_inst_iter() differs from Module::assemble()".to_string())));
+        }
+        let mut m2 = module.clone();
+        let mut per2: Vec<u32> = out[..5].to_vec();
+        no_panic("Instruction::assemble_into over all_inst_iter_mut", || {
+            for i in m2.all_inst_iter_mut() {
+                i.assemble_into(&mut per2);
+            }
+        })
+        .map_err(wrap)?;
+        if per2 != out {
+            return Err(wrap(Fail::new("assemble-entry-points", "per-instruction-over-all_inst_iter_mut", "assembling instruction by instruction over all_inst_iter_mut() differs from Module::assemble()".to_string())));
+        }
+    }
     let Some(out_insts) = split_insts(&out[5..]) else {
         return Err(wrap(Fail::new(
             "output-framing",
@@ -376,7 +406,7 @@ pub fn finish(ctx: &Ctx) -> i32 {
     crate::engine::finish(
         ctx,
         Finish {
-            rule: "cases: (a) every sweep instruction (every opcode min/max, every enumerant, mask values, embedded opcodes) inside the smallest well-bracketed module its layout class needs; (b) generated modules: layout-ordered, interleaved (module-level instructions scattered through functions and blocks) and wild, one third with stacked byte-level faults (only inputs the loader accepts are in the domain). Oracle: the reference parser R1 splits the input into instructions with string padding positions, the layout model R2 computes the expected placement; output header carries input version and bound; output instructions, in R2's order, are word-identical to the input instructions modulo bytes after a string's NUL; same count (nothing dropped/invented); reload gives a field-wise equal module and assemble is a fixed point. non-trivial = accepted module with >= 1 function holding >= 1 block and >= 8 instructions (sweep: accepted wrapper module); distinct = hash of the input bytes.",
+            rule: "cases: (a) every sweep instruction (every opcode min/max, every enumerant, mask values, embedded opcodes) inside the smallest well-bracketed module its layout class needs; (b) generated modules: layout-ordered, interleaved (module-level instructions scattered through functions and blocks) and wild, one third with stacked byte-level faults (only inputs the loader accepts are in the domain). Oracle: the reference parser R1 splits the input into instructions with string padding positions, the layout model R2 computes the expected placement; output header carries input version and bound; output instructions, in R2's order, are word-identical to the input instructions modulo bytes after a string's NUL; same count (nothing dropped/invented); reload gives a field-wise equal module and assemble is a fixed point; assemble_into and instruction-by-instruction assembly over all_inst_iter / all_inst_iter_mut give the same words; load_words agrees with load_bytes. non-trivial = accepted module with >= 1 function holding >= 1 block and >= 8 instructions (sweep: accepted wrapper module); distinct = hash of the input bytes.",
             assumptions: vec![
                 "excluded per the statement: OpLine/OpNoLine inside a function outside a block; more than one OpMemoryModel".into(),
                 "for opcodes whose module-scope placement is outside the claim (vendor types/constants, module-scope OpExtInst) only the multiset of instructions, header and reload are checked".into(),
